@@ -25,14 +25,18 @@
  * -DQLEN/-DDLEN for the first acquisition); tickets, data pointers, status
  * and the number of items in other workers' hands are symbolic.
  *
- * INV (shared, protected by pool->mtx), with W = tickets in workers' hands:
- *   queue NULL-terminated, strictly increasing tickets, queue_last its tail
- *     (NULL iff queue is empty)
- *   done NULL-terminated, strictly increasing tickets
- *   tickets of queue, done, W pairwise distinct, all in
- *     [next_dequeue_ticket, next_ticket); every ticket of done/W is smaller
- *     than every ticket of queue (workers take from the head)
- *   |queue| + |done| + |W| = next_ticket - next_dequeue_ticket   (no gaps)
+ * INV (shared, protected by pool->mtx):
+ *   queue NULL-terminated, its tickets are the run ending at next_ticket - 1
+ *     (neighbours differ by one), queue_last its tail (NULL iff queue empty);
+ *     let qfirst = ticket of the queue head, or next_ticket if it is empty
+ *   next_dequeue_ticket <= qfirst <= next_ticket
+ *   done NULL-terminated, strictly increasing tickets, all in
+ *     [next_dequeue_ticket, qfirst)
+ *   W, the tickets in workers' hands, is BY DEFINITION the rest of
+ *     [next_dequeue_ticket, qfirst) - so every ticket that was handed out and
+ *     not yet dequeued is in exactly one of queue / done / W (no gaps, no
+ *     duplicates); |W| <= number of workers (each holds at most one item);
+ *     the item the thread under test holds has a ticket in W
  *   for the witness ticket g_wt: an item carrying it carries data g_wd
  *     (ticket -> data is a function; universally quantified by the solver)
  * M-INV (owned by the submitting thread, touched without the lock):
@@ -95,11 +99,14 @@ static int c09_mutex_destroy(pthread_mutex_t *m);
 #ifndef NW
 #define NW 2		/* worker threads */
 #endif
-#ifndef NGEN
-#define NGEN 3		/* monitor acquisitions modelled per harness */
-#endif
 #ifndef MAXWAIT
-#define MAXWAIT 1	/* cond_wait returns explored per acquisition chain */
+#define MAXWAIT 1	/* cond_wait returns explored after each lock */
+#endif
+#ifndef MAXLOCK
+#define MAXLOCK 1	/* lock calls explored per harness */
+#endif
+#ifndef NGEN
+#define NGEN (MAXLOCK * (MAXWAIT + 1))	/* acquisitions modelled */
 #endif
 /* longest list a section can produce from a state within the capacities */
 #define QMAX (KQ + 1)
@@ -112,7 +119,13 @@ typedef struct {
 	worker_t w[NW];
 } c09_pool_t;
 
+#ifndef C09_HEAP
 static c09_pool_t g_pw;
+#else
+/* destroy() frees the pool and its items: everything comes from malloc */
+static c09_pool_t *g_pwp;
+#define g_pw (*g_pwp)
+#endif
 #define POOL (&g_pw.p)
 
 /*
@@ -120,6 +133,7 @@ static c09_pool_t g_pw;
  * then an object identity with offset 0, which keeps CBMC's dereferences cheap.
  * Capacity: 4 generations x 4 nodes for queue/done, 4 for safe_done/recycle.
  */
+#ifndef C09_HEAP
 #define C09_N4(p) static work_item_t p##0, p##1, p##2, p##3
 C09_N4(g_q0_); C09_N4(g_q1_); C09_N4(g_q2_); C09_N4(g_q3_);
 C09_N4(g_d0_); C09_N4(g_d1_); C09_N4(g_d2_); C09_N4(g_d3_);
@@ -153,6 +167,29 @@ static work_item_t *DN(unsigned g, size_t i)
 
 static work_item_t *SN(size_t i) { C09_SW4(g_s_, i) }
 static work_item_t *RN(size_t i) { C09_SW4(g_r_, i) }
+#else
+static work_item_t *g_hq[4], *g_hd[4], *g_hs[4], *g_hr[4];
+static work_item_t *QN(unsigned g, size_t i) { (void)g; return i < 4 ? g_hq[i] : NULL; }
+static work_item_t *DN(unsigned g, size_t i) { (void)g; return i < 4 ? g_hd[i] : NULL; }
+static work_item_t *SN(size_t i) { return i < 4 ? g_hs[i] : NULL; }
+static work_item_t *RN(size_t i) { return i < 4 ? g_hr[i] : NULL; }
+
+static void c09_heap_alloc(void)
+{
+	size_t i;
+
+	g_pwp = malloc(sizeof(*g_pwp));
+	VERIF_ASSUME(g_pwp != NULL);
+	for (i = 0; i < 4; ++i) {
+		g_hq[i] = malloc(sizeof(work_item_t));
+		g_hd[i] = malloc(sizeof(work_item_t));
+		g_hs[i] = malloc(sizeof(work_item_t));
+		g_hr[i] = malloc(sizeof(work_item_t));
+		VERIF_ASSUME(g_hq[i] != NULL && g_hd[i] != NULL &&
+			     g_hs[i] != NULL && g_hr[i] != NULL);
+	}
+}
+#endif
 
 /* ------------------------------------------------------------ ghost state */
 static int g_locked;		/* this thread holds pool->mtx */
@@ -160,12 +197,13 @@ static int g_is_main;		/* CS under test runs on the submitting thread */
 static int g_bcast_queue;	/* queue_cond broadcast since last acquisition */
 static int g_bcast_done;	/* done_cond broadcast since last acquisition */
 static unsigned g_gen;		/* acquisitions so far */
-static unsigned g_waits;	/* cond_wait calls so far */
+static unsigned g_waits;	/* cond_wait returns since the last lock */
+static unsigned g_waits_total;
 static unsigned g_locks, g_unlocks;
 
 static work_item_t *g_held;	/* item in THIS thread's hands (or NULL) */
-static size_t g_ow[NW];		/* tickets in the (other) workers' hands */
-static size_t g_ow_n;
+static work_item_t *s_held;	/* ... as it was at the last acquisition */
+static size_t g_busy_cap;	/* workers other than this thread */
 static size_t g_wt;		/* witness ticket ... */
 static void *g_wd;		/* ... and the data submitted with it */
 
@@ -174,6 +212,19 @@ static size_t s_qn, s_dn;
 static work_item_t *s_q[4], *s_d[4];
 static int s_status;
 static size_t s_nt, s_ndt;
+
+/* plain-field copy of everything outside the shared lists' links, taken at
+ * every acquisition: what a worker-side section must not write */
+typedef struct {
+	work_item_t *queue, *queue_last, *done, *safe_done, *safe_done_last;
+	work_item_t *recycle;
+	size_t next_ticket, next_dequeue_ticket, item_count, num_workers;
+	int status;
+	void *user[NW];
+	thread_pool_impl_t *wpool[NW];
+	work_item_t q[4], d[4], s[4], r[4], held;
+} c09_snap_t;
+static c09_snap_t s_b;
 
 static void c09_on_release(int is_wait, pthread_cond_t *cond);
 
@@ -314,11 +365,10 @@ static void c09_check_inv(void)
 {
 	thread_pool_impl_t *pool = POOL;
 	size_t ql = c09_len(pool->queue, QMAX), dl = c09_len(pool->done, DMAX);
-	size_t wl = g_ow_n + (g_held != NULL ? 1 : 0);
+	size_t wl = g_held != NULL ? 1 : 0;
 	size_t nt = pool->next_ticket, ndt = pool->next_dequeue_ticket;
 	const work_item_t *qlast = c09_last(pool->queue, QMAX);
 	size_t qfirst = pool->queue != NULL ? pool->queue->ticket_number : nt;
-	size_t i, j;
 
 	VERIF_ASSERT(ql <= QMAX && dl <= DMAX, INV_NAME);
 	/* queue = the run of tickets ending at next_ticket - 1 */
@@ -329,19 +379,6 @@ static void c09_check_inv(void)
 	/* done: sorted, below the queue */
 	VERIF_ASSERT(c09_strictly_increasing(pool->done, DMAX), INV_NAME);
 	VERIF_ASSERT(c09_in_range(pool->done, ndt, qfirst, DMAX), INV_NAME);
-	/* in workers' hands: below the queue, not in done, pairwise distinct */
-	for (i = 0; i < NW; ++i) {
-		if (i < g_ow_n) {
-			VERIF_ASSERT(!(g_ow[i] < ndt) && g_ow[i] < qfirst, INV_NAME);
-			VERIF_ASSERT(!c09_has_ticket(pool->done, g_ow[i], DMAX),
-				     INV_NAME);
-			for (j = 0; j < i; ++j)
-				VERIF_ASSERT(C09_NEQ(g_ow[j], g_ow[i]), INV_NAME);
-			if (g_held != NULL)
-				VERIF_ASSERT(C09_NEQ(g_ow[i], g_held->ticket_number),
-					     INV_NAME);
-		}
-	}
 	if (g_held != NULL) {
 		VERIF_ASSERT(!(g_held->ticket_number < ndt) &&
 			     g_held->ticket_number < qfirst, INV_NAME);
@@ -352,9 +389,14 @@ static void c09_check_inv(void)
 		VERIF_ASSERT(g_held->ticket_number != g_wt ||
 			     g_held->data == g_wd, INV_NAME);
 	}
-	/* no gaps: every ticket in [ndt, qfirst) is in done or in a worker's
-	 * hands (distinct tickets in a range of exactly their number) */
-	VERIF_ASSERT(dl + wl == qfirst - ndt, INV_NAME);
+	/*
+	 * W, the tickets in workers' hands, is by definition what is left of
+	 * [ndt, qfirst) after removing the done list (so there are no gaps by
+	 * construction); each worker holds at most one item.
+	 */
+	VERIF_ASSERT(dl <= qfirst - ndt, INV_NAME);
+	VERIF_ASSERT((qfirst - ndt) - dl <= g_busy_cap + wl, INV_NAME);
+	VERIF_ASSERT(wl <= (qfirst - ndt) - dl, INV_NAME);
 	VERIF_ASSERT(c09_witness_ok(pool->queue, QMAX) &&
 		     c09_witness_ok(pool->done, DMAX), INV_NAME);
 }
@@ -365,15 +407,15 @@ static void c09_check_main_inv(void)
 	thread_pool_impl_t *pool = POOL;
 	size_t sl = c09_len(pool->safe_done, SMAX);
 	size_t rl = c09_len(pool->recycle, RMAX);
+	const work_item_t *slast = c09_last(pool->safe_done, SMAX);
 
 	VERIF_ASSERT(sl <= SMAX && rl <= RMAX, INV_NAME);
-	VERIF_ASSERT(pool->safe_done_last == c09_last(pool->safe_done, SMAX),
+	VERIF_ASSERT(pool->safe_done_last == slast, INV_NAME);
+	VERIF_ASSERT(c09_step_one(pool->safe_done, SMAX), INV_NAME);
+	VERIF_ASSERT(slast == NULL ||
+		     slast->ticket_number + 1 == pool->next_dequeue_ticket,
 		     INV_NAME);
-	VERIF_ASSERT(pool->next_dequeue_ticket <= pool->next_ticket &&
-		     sl <= pool->next_dequeue_ticket, INV_NAME);
-	VERIF_ASSERT(c09_consecutive_from(pool->safe_done,
-					  pool->next_dequeue_ticket - sl, SMAX),
-		     INV_NAME);
+	VERIF_ASSERT(pool->next_dequeue_ticket <= pool->next_ticket, INV_NAME);
 	VERIF_ASSERT(c09_witness_ok(pool->safe_done, SMAX), INV_NAME);
 	VERIF_ASSERT(pool->item_count ==
 		     pool->next_ticket - pool->next_dequeue_ticket + sl, INV_NAME);
@@ -398,7 +440,7 @@ static void c09_build_main(void)
 #endif
 	VERIF_ASSUME(s <= KS && r <= KR);
 	/* fewer than 2^64 - 64 submissions in the life of a pool */
-	VERIF_ASSUME(ndt <= nt && nt < SIZE_MAX - 64 && s <= ndt);
+	VERIF_ASSUME(ndt <= nt && nt < SIZE_MAX - 64);
 
 	g_wt = verif_nd_size("witness_ticket");
 	g_wd = c09_nd_ptr("witness_data");
@@ -410,11 +452,21 @@ static void c09_build_main(void)
 	for (i = 0; i < KS; ++i) {
 		work_item_t *n = SN(i);
 
-		n->ticket_number = ndt - s + i;
+		n->ticket_number = verif_nd_size("safe.ticket");
 		n->data = c09_nd_ptr("safe.data");
 		n->next = (i + 1 < s) ? SN(i + 1) : NULL;
+	}
+	for (i = 0; i < KS; ++i) {
+		work_item_t *n = SN(i);
+
+		if (i + 1 < s)
+			VERIF_ASSUME(SN(i + 1)->ticket_number ==
+				     n->ticket_number + 1);
+		if (i + 1 == s)
+			VERIF_ASSUME(n->ticket_number + 1 == ndt);
 		if (i < s)
-			VERIF_ASSUME(n->ticket_number != g_wt || n->data == g_wd);
+			VERIF_ASSUME(n->ticket_number < ndt &&
+				     (n->ticket_number != g_wt || n->data == g_wd));
 	}
 	pool->safe_done = s > 0 ? SN(0) : NULL;
 	pool->safe_done_last = s > 0 ? SN(s - 1) : NULL;
@@ -442,16 +494,14 @@ static void c09_build_main(void)
  * by INV only. A worker sees arbitrary ticket counters; the submitting thread
  * is the only writer of next_ticket / next_dequeue_ticket, so for it they
  * keep their values. A non-zero status is never reset (rely condition on
- * every thread). The ghost set of other workers' tickets is kept sorted
- * (a set has no order; this only removes symmetric copies).
+ * every thread).
  */
 static void c09_build_shared(void)
 {
 	thread_pool_impl_t *pool = POOL;
 	unsigned g = g_gen;
 	size_t q = verif_nd_size("qlen"), d = verif_nd_size("dlen");
-	size_t w = verif_nd_size("other_workers_busy");
-	size_t nt, ndt, qfirst, i, j;
+	size_t nt, ndt, qfirst, i;
 	size_t wcap = g_is_main ? NW : NW - 1;
 	int status = verif_nd_int("status");
 
@@ -465,7 +515,7 @@ static void c09_build_shared(void)
 	if (g == 0)
 		d = DLEN;
 #endif
-	VERIF_ASSUME(q <= KQ && d <= KD && w <= wcap);
+	VERIF_ASSUME(q <= KQ && d <= KD);
 
 	if (g_is_main) {
 		nt = pool->next_ticket;
@@ -532,29 +582,14 @@ static void c09_build_shared(void)
 	}
 	pool->done = d > 0 ? DN(g, 0) : NULL;
 
-	/* tickets in the other workers' hands */
-	g_ow_n = w;
-	for (i = 0; i < NW; ++i)
-		g_ow[i] = verif_nd_size("other.ticket");
-	for (i = 0; i < NW; ++i) {
-		if (i < w) {
-			VERIF_ASSUME(!(g_ow[i] < ndt) && g_ow[i] < qfirst);
-			if (i + 1 < w)
-				VERIF_ASSUME(g_ow[i] < g_ow[i + 1]);
-			for (j = 0; j < KD; ++j) {
-				if (j < d)
-					VERIF_ASSUME(C09_NEQ(g_ow[i],
-						     DN(g, j)->ticket_number));
-			}
-			if (g_held != NULL)
-				VERIF_ASSUME(C09_NEQ(g_ow[i], g_held->ticket_number));
-		}
-	}
+	/* the rest of [ndt, qfirst) is in workers' hands: this thread's item
+	 * plus at most one per other worker */
 	if (g_held != NULL)
 		VERIF_ASSUME(!(g_held->ticket_number < ndt) &&
 			     g_held->ticket_number < qfirst);
-	/* no gaps */
-	VERIF_ASSUME(d + w + (g_held != NULL ? 1 : 0) == qfirst - ndt);
+	g_busy_cap = wcap;
+	VERIF_ASSUME(d + (g_held != NULL ? 1 : 0) <= qfirst - ndt);
+	VERIF_ASSUME((qfirst - ndt) - d <= wcap + (g_held != NULL ? 1 : 0));
 
 	/* ---- snapshot ---- */
 	s_qn = q;
@@ -568,6 +603,65 @@ static void c09_build_shared(void)
 	s_ndt = ndt;
 	g_bcast_queue = 0;
 	g_bcast_done = 0;
+
+	s_b.queue = pool->queue; s_b.queue_last = pool->queue_last;
+	s_b.done = pool->done; s_b.safe_done = pool->safe_done;
+	s_b.safe_done_last = pool->safe_done_last; s_b.recycle = pool->recycle;
+	s_b.next_ticket = nt; s_b.next_dequeue_ticket = ndt;
+	s_b.item_count = pool->item_count; s_b.num_workers = pool->num_workers;
+	s_b.status = status;
+	for (i = 0; i < NW; ++i) {
+		s_b.user[i] = g_pw.w[i].user;
+		s_b.wpool[i] = g_pw.w[i].pool;
+	}
+	for (i = 0; i < 4; ++i) {
+		s_b.q[i] = *QN(g, i); s_b.d[i] = *DN(g, i);
+		s_b.s[i] = *SN(i); s_b.r[i] = *RN(i);
+	}
+	s_held = g_held;
+	if (g_held != NULL)
+		s_b.held = *g_held;
+}
+
+static int c09_item_eq(const work_item_t *a, const work_item_t *b, int with_next)
+{
+	return a->ticket_number == b->ticket_number && a->data == b->data &&
+		(!with_next || a->next == b->next);
+}
+
+/*
+ * C09.frame for a worker-side section, relative to the last acquisition:
+ * nothing owned by the submitting thread (recycle, safe_done, item_count and
+ * their nodes; the ticket counters, which only submit/dequeue advance), no
+ * worker context, no ticket number and no data pointer of any item is
+ * written. `held` is the item this worker held at the acquisition (or NULL).
+ */
+static void c09_check_worker_frame(const work_item_t *held)
+{
+	thread_pool_impl_t *pool = POOL;
+	size_t i;
+
+	VERIF_ASSERT(pool->next_ticket == s_b.next_ticket &&
+		     pool->next_dequeue_ticket == s_b.next_dequeue_ticket,
+		     "C09.frame");
+	VERIF_ASSERT(pool->item_count == s_b.item_count &&
+		     pool->safe_done == s_b.safe_done &&
+		     pool->safe_done_last == s_b.safe_done_last &&
+		     pool->recycle == s_b.recycle &&
+		     pool->num_workers == s_b.num_workers, "C09.frame");
+	for (i = 0; i < NW; ++i)
+		VERIF_ASSERT(g_pw.w[i].user == s_b.user[i] &&
+			     g_pw.w[i].pool == s_b.wpool[i], "C09.frame");
+	for (i = 0; i < 4; ++i) {
+		if (s_q[i] != NULL)
+			VERIF_ASSERT(c09_item_eq(s_q[i], &s_b.q[i], 0), "C09.frame");
+		if (s_d[i] != NULL)
+			VERIF_ASSERT(c09_item_eq(s_d[i], &s_b.d[i], 0), "C09.frame");
+		VERIF_ASSERT(c09_item_eq(SN(i), &s_b.s[i], 1), "C09.frame");
+		VERIF_ASSERT(c09_item_eq(RN(i), &s_b.r[i], 1), "C09.frame");
+	}
+	if (held != NULL)
+		VERIF_ASSERT(c09_item_eq(held, &s_b.held, 0), "C09.frame");
 }
 
 /* ------------------------------------------------- environment contracts */
@@ -575,8 +669,16 @@ static int c09_mutex_lock(pthread_mutex_t *m)
 {
 	VERIF_ASSERT(m == &POOL->mtx, "C09.lock.discipline");
 	VERIF_ASSERT(!g_locked, "C09.lock.discipline");
+	/*
+	 * Proof cut for the worker's endless loop: the MAXLOCK+1st section of
+	 * a harness starts like the previous one (arbitrary INV state, the
+	 * same kind of locals) and is not explored again.
+	 */
+	if (g_locks >= MAXLOCK)
+		VERIF_ASSUME(0);
 	g_locked = 1;
 	g_locks += 1;
+	g_waits = 0;
 	c09_build_shared();
 	return 0;
 }
@@ -585,8 +687,8 @@ static int c09_mutex_unlock(pthread_mutex_t *m)
 {
 	VERIF_ASSERT(m == &POOL->mtx, "C09.lock.discipline");
 	VERIF_ASSERT(g_locked, "C09.lock.discipline");
+	c09_on_release(0, NULL);	/* section-specific obligations, ghost update */
 	c09_check_inv();
-	c09_on_release(0, NULL);
 	g_locked = 0;
 	g_unlocks += 1;
 	return 0;
@@ -598,8 +700,8 @@ static int c09_cond_wait(pthread_cond_t *c, pthread_mutex_t *m)
 	VERIF_ASSERT(c == &POOL->queue_cond || c == &POOL->done_cond,
 		     "C09.lock.discipline");
 	VERIF_ASSERT(g_locked, "C09.lock.discipline");
-	c09_check_inv();
 	c09_on_release(1, c);
+	c09_check_inv();
 	/*
 	 * Proof cut: the MAXWAIT+1st wait of a harness is checked like every
 	 * other release and then ends the path. Its continuation is the same
@@ -609,6 +711,7 @@ static int c09_cond_wait(pthread_cond_t *c, pthread_mutex_t *m)
 	if (g_waits >= MAXWAIT)
 		VERIF_ASSUME(0);
 	g_waits += 1;
+	g_waits_total += 1;
 	c09_build_shared();
 	return 0;
 }
@@ -645,7 +748,8 @@ static int c09_join(pthread_t t, void **ret)
 static int c09_cond_destroy(pthread_cond_t *c)
 {
 	(void)c;
-	VERIF_ASSERT(!g_locked, "C09.lock.discipline");
+	VERIF_ASSERT(!g_locked && g_joined == POOL->num_workers,
+		     "C09.lock.discipline");
 	g_destroyed += 1;
 	return 0;
 }
@@ -653,7 +757,8 @@ static int c09_cond_destroy(pthread_cond_t *c)
 static int c09_mutex_destroy(pthread_mutex_t *m)
 {
 	(void)m;
-	VERIF_ASSERT(!g_locked, "C09.lock.discipline");
+	VERIF_ASSERT(!g_locked && g_joined == POOL->num_workers,
+		     "C09.lock.discipline");
 	g_destroyed += 1;
 	return 0;
 }
